@@ -206,6 +206,8 @@ def apply_fault(data, fault, aux=b''):
     if kind == 'latin1':
         a, byte = fault[1], fault[2]
         return data[:a] + bytes([byte]) + data[a:]
+    if kind == 'blank':         # every byte replaced by white space (the text is whitespace only)
+        return bytes(b if b in (0x0a, 0x0d, 0x09) else 0x20 for b in data)
     if kind == 'foreign':       # the wrong file altogether (hex string)
         return bytes.fromhex(fault[1])
     raise ValueError("unknown fault %r" % (fault,))
